@@ -9,6 +9,9 @@ import (
 	"strings"
 
 	"fv/internal/core"
+	"fv/internal/ssax"
+
+	"golang.org/x/tools/go/ssa"
 )
 
 // c08ListOrder — C08.R5: every list a generator accumulates while ranging
@@ -156,4 +159,45 @@ func accBeforeElem(info *types.Info, e ast.Expr, acc, elem types.Object) (bool, 
 		return false, "accumulator and element are mixed in one operand: " + types.ExprString(e)
 	}
 	return ai < ei, types.ExprString(e)
+}
+
+// c08OptionPlumbing — C08.R10: the topic delimiter the generators read is the
+// one the user gave, whatever it is (the empty string included): Compile
+// stores every field of its Options into the corresponding global on every
+// path — not only "when it is set".
+func c08OptionPlumbing(ctx *core.Ctx, cc *CC) {
+	ctx.Rule("C08.R10", "the -delim option reaches the generators for every value: Compile assigns globals.TopicDelimiter from the options unconditionally", 1)
+	entry := cc.FnOpt("compiler", "Compile")
+	if entry == nil {
+		ctx.Unresolved("C08.R10", "compiler.Compile", "entry point not found")
+		return
+	}
+	n := 0
+	ssax.Instrs(entry, func(in ssa.Instruction) {
+		st, ok := in.(*ssa.Store)
+		if !ok {
+			return
+		}
+		g, ok := st.Addr.(*ssa.Global)
+		if !ok || g.Pkg == nil || g.Pkg.Pkg.Name() != "globals" || g.Name() != "TopicDelimiter" {
+			return
+		}
+		n++
+		every := true
+		for _, b := range entry.Blocks {
+			if len(b.Instrs) == 0 {
+				continue
+			}
+			if _, isRet := b.Instrs[len(b.Instrs)-1].(*ssa.Return); isRet && b.Comment != "recover" {
+				if !(in.Block() == b || in.Block().Dominates(b)) {
+					every = false
+				}
+			}
+		}
+		ctx.Check(every, "C08.R10", "compiler.Compile › globals.TopicDelimiter is assigned on every path", cc.IPos(in), "the store dominates every return",
+			"the delimiter option is copied only under a condition (e.g. when it is not empty): for the other values the generators read the default '.', so the generated topics are not joined by the delimiter the user asked for")
+	})
+	if n == 0 {
+		ctx.Violate("C08.R10", "compiler.Compile › globals.TopicDelimiter is assigned on every path", cc.FPos(entry), "Compile never assigns the delimiter option to globals.TopicDelimiter")
+	}
 }
